@@ -69,6 +69,78 @@ def _tracked_bools(body):
     return S
 
 
+# variant name -> discriminant value (as written in switch targets); std's two-variant enums are built in, the analysed
+# crates' enums are registered by the runner (register_adts)
+ADT_VARIANTS = {"std::option::Option": {"None": "0", "Some": "1"}, "std::result::Result": {"Ok": "0", "Err": "1"},
+                "std::ops::ControlFlow": {"Continue": "0", "Break": "1"}}
+
+
+def register_adts(adts):
+    for p, a in adts.items():
+        vs = {}
+        for v in a.get("variants", []):
+            if v.get("discr") is not None:
+                vs[v["name"]] = str(v["discr"])
+        if vs and a.get("kind") == "Enum":
+            ADT_VARIANTS.setdefault(p, vs)
+
+
+def _tracked_enums(body):
+    """enum-typed locals whose variant can decide a switch: {local: None} for locals L with a block `_d = discriminant(L);
+    switch _d` that are never mutably borrowed; and {switch block: L}"""
+    mb = flow.mut_borrowed(body)
+    E, sw = set(), {}
+    for bi, blk in enumerate(body.blocks):
+        t = blk["t"]
+        if t["k"] != "switch" or t["discr_ty"] == "bool" or t["discr"][0] not in ("c", "m") or len(t["discr"][1]) != 1:
+            continue
+        dl = t["discr"][1][0]
+        src = [s_ for s_ in blk["s"] if s_[0] == "=" and s_[1] == [dl]]
+        if len(src) == 1 and src[0][2][0] == "discr" and len(src[0][2][1]) == 1:
+            L = src[0][2][1][0]
+            if L in mb or L <= body.argc:
+                continue
+            # the local must not be assigned in the very block that reads its discriminant
+            if any(s_[0] == "=" and s_[1] and s_[1][0] == L for s_ in blk["s"]):
+                continue
+            E.add(L)
+            sw[bi] = L
+    # transitively: locals they are moved / copied from
+    work = list(E)
+    while work:
+        l = work.pop()
+        for d in body.defs().get(l, []):
+            if d[0] == "stmt" and len(d[3]) == 1 and d[4][0] == "use" and d[4][1][0] in ("c", "m") and len(d[4][1][1]) == 1:
+                src_l = d[4][1][1][0]
+                if src_l not in E and src_l not in mb and src_l > body.argc:
+                    E.add(src_l)
+                    work.append(src_l)
+    return E, sw
+
+
+def _block_enum_effects(body, bb, E):
+    """ordered (local, kind, data): ('const', discr) | ('copy', src) | ('unknown', None) for whole-local assignments"""
+    out = []
+    blk = body.blocks[bb]
+    for s_ in blk["s"]:
+        if s_[0] != "=" or not s_[1] or s_[1][0] not in E:
+            continue
+        l = s_[1][0]
+        if len(s_[1]) != 1:
+            continue            # a field of the payload: the variant stays
+        rv = s_[2]
+        if rv[0] == "agg" and rv[1][0] == "adt" and rv[1][1] in ADT_VARIANTS and rv[1][2] in ADT_VARIANTS[rv[1][1]]:
+            out.append((l, "const", ADT_VARIANTS[rv[1][1]][rv[1][2]]))
+        elif rv[0] == "use" and rv[1][0] in ("c", "m") and len(rv[1][1]) == 1 and rv[1][1][0] in E:
+            out.append((l, "copy", rv[1][1][0]))
+        else:
+            out.append((l, "unknown", None))
+    t = blk["t"]
+    if t["k"] == "call" and len(t.get("dest", [])) >= 1 and t["dest"][0] in E:
+        out.append((t["dest"][0], "unknown", None))
+    return out
+
+
 def _block_bool_effects(body, bb, S, eval_expr):
     """ordered list of (local, kind, data) for assignments to tracked bool locals in block bb:
     ('const', v) | ('copy', src) | ('not', src) | ('val', v) value known under the caller's assumptions | ('unknown',)"""
@@ -105,7 +177,7 @@ def _block_bool_effects(body, bb, S, eval_expr):
     return out
 
 
-def reachable_under(body, forced, track_bools=True, max_states=20000, eval_expr=None):
+def reachable_under(body, forced, track_bools=True, max_states=20000, eval_expr=None, stop_at=()):
     """blocks reachable from entry when `forced(body, bb)` (-> successor block or None) decides some switches,
     bool tests on immutable paths stay consistent, and the values of bool locals that are assigned constants, copies,
     negations or expressions that `eval_expr(body, expr)` can evaluate under the caller's assumptions are tracked along
@@ -117,9 +189,14 @@ def reachable_under(body, forced, track_bools=True, max_states=20000, eval_expr=
     work = [start]
     cache = {}
     S = _tracked_bools(body) if track_bools else set()
+    E, esw = _tracked_enums(body) if track_bools else (set(), {})
     effects = {}
+    eeffects = {}
+    stop_at = set(stop_at)
     while work:
         bb, st = work.pop()
+        if bb in stop_at:
+            continue
         if len(seen) > max_states:
             # give up path sensitivity: fall back to plain reachability (sound over-approximation)
             for b in body.reachable_from(0):
@@ -142,9 +219,29 @@ def reachable_under(body, forced, track_bools=True, max_states=20000, eval_expr=
                     else:
                         d0.pop(key, None)
                 st = frozenset(d0.items())
+        if E:
+            if bb not in eeffects:
+                eeffects[bb] = _block_enum_effects(body, bb, E)
+            if eeffects[bb]:
+                d0 = dict(st)
+                for (l, kind, data) in eeffects[bb]:
+                    key = ("d", l)
+                    if kind == "const":
+                        d0[key] = data
+                    elif kind == "copy" and ("d", data) in d0:
+                        d0[key] = d0[("d", data)]
+                    else:
+                        d0.pop(key, None)
+                st = frozenset(d0.items())
         f = forced(body, bb)
         if f is not None:
             nxt = [(f, st)]
+        elif bb in esw and ("d", esw[bb]) in dict(st):
+            # `match local { .. }` on a local whose variant is known on this path
+            t = body.term(bb)
+            v = dict(st)[("d", esw[bb])]
+            tg = [x for vv, x in t["targets"] if vv == v]
+            nxt = [(tg[0] if tg else t["otherwise"], st)]
         else:
             bk = None
             t = body.term(bb)
